@@ -262,6 +262,32 @@ contract(module="coco.pixtopgm", qualname="convert", tag="C19", also=["C18"],
                   dict(id="complete", post="n == side*side", props=["C18", "C19"])],
          raises=[dict(id="loud", exc="*", allowed="True")])
 
+# C16: every pixel at its position.  The image is stored sideways: source row y (side//2 bytes) becomes output column y, byte x of a
+# row gives the samples of output rows 2x (high nibble) and 2x+1 (low nibble), shade 15 - nibble scaled to 0..255.
+PIX_CELL = ("s[(xx+xx)*side + yy] == 255 - hi_nib(inp[h*yy + xx])*17 and "
+            "s[(xx+xx+1)*side + yy] == 255 - lo_nib(inp[h*yy + xx])*17")
+PIX_DONE = "forallq(0, {Y}, lambda yy: forallq(0, h, lambda xx: " + PIX_CELL + "))"
+PIX_ROW = "forallq(0, {X}, lambda xx: " + PIX_CELL.replace("yy", "y") + ")"
+PIX_BYTES = "forall(0, len(s), lambda j: 0 <= s[j] and s[j] <= 255)"
+# facts about products (proved with real multiplication): odd rows, and rows of the sideways buffer do not overlap
+# (bound variables of the lemmas are named so that the product abstraction orders factors as in the invariants)
+PIX_LEMMAS = ["side >= 0", "side % 2 == 0", "h + h == side", "side*side == 2*L",
+              "forallq(0, h, lambda xq: (xq+xq+1)*side == (xq+xq)*side + side)",
+              "forallq(0, h, lambda xq: xq*side >= 0 and (xq+xq+1)*side + side <= side*side)",
+              ]
+contract(module="coco.pixtopgm", qualname="convert", tag="C16",
+         params=dict(input_image_stream="instream", output_image_stream="outstream"), requires=[],
+         ghost_entry="h = 0",
+         loops={0: dict(ghost_before="h = side // 2", lemmas=PIX_LEMMAS + ["h*(y+1) == h*y + h", "h*y >= 0", "implies(y < side, h*y + h <= L)"],
+                        inv=[PIX_BYTES, "len(s) == side*side", "pos == h*y", PIX_DONE.format(Y="y")]),
+                1: dict(lemmas=["forallq(0, h, lambda xq: implies(xq < x, xq*side + side <= x*side))",
+                                "forallq(0, h, lambda xq: implies(x < xq, x*side + side <= xq*side))", "x*side >= 0", "(x+x+1)*side == (x+x)*side + side", "implies(x < h, (x+x+1)*side + side <= side*side)"],
+                        inv=[PIX_BYTES, "len(s) == side*side", "pos == h*y + x", PIX_DONE.format(Y="y"), PIX_ROW.format(X="x")])},
+         ensures=[dict(id="pixels", props=["C16"],
+                       post="side % 2 == 0 and n == side*side and " + PIX_DONE.format(Y="side").replace("s[", "out[")),
+                  dict(id="header", post="hdr == fmt('P5\\n{} {}\\n255\\n', side, side)", props=["C16"])],
+         raises=[dict(id="loud", exc="*", allowed="True")])
+
 # ------------------------------------------------------------------ coco.maxtoppm
 MAX_PARAMS = dict(input_image_stream="instream", output_image_stream="outstream", arte=("lazyenum", [0, 3, 4, 5, 6, 7, 8]),
                   newsroom="bool", cols="int", rows="optint", skip="optint", ignore_header_errors="bool")
